@@ -57,7 +57,8 @@ declare -A caught
 if [ $res_build = yes ]; then
   for P in "$PROP" "${EXTRA[@]}"; do
     o="$(mktemp -d /tmp/seedchk-out-XXXXXX)"
-    rsync -a --exclude .git --exclude evidence --exclude replays --exclude seeded "$VERIF/" "$o/verif/"
+    # the COMMITTED /verif (git archive HEAD): edits in progress in the working tree cannot break or bend the run
+    mkdir -p "$o/verif" && git -C "$VERIF" archive HEAD -- . ':!seeded' ':!evidence' ':!replays' | tar -x -C "$o/verif" && mkdir -p "$o/verif/tools/bin" && cp -p "$VERIF/tools/bin/vinstr" "$o/verif/tools/bin/" 2>/dev/null
     VERIF_REPO="$WT" "$o/verif/check" "$P" --tier "$TIER" > "$OUT/check_$P.txt" 2>&1
     rc=$?
     caught[$P]=$rc
